@@ -670,14 +670,14 @@ fn run_validate(rep: &mut Report, seed: u64, case: u64) {
 pub fn run(tier: Tier, seed: u64) -> ! {
     let mut rep = Report::new("C14", tier, seed, "exploration");
     rep.rule = "random mutation histories on LpgStore (create/delete node, create/delete edge incl. self-loops and parallel edges, set/remove property of mixed value types, add/remove label, create/drop property index, statistics refresh, zone-map rebuild), with and without backward adjacency, 'hub' histories that push one node's degree past the 64-entry chunk and compaction thresholds; after EVERY operation all accessors (node_ids, all_nodes, get_node, nodes_by_label, all_edges, get_edge, edge_type, edges_with_type, edges_from/edges_to/neighbors/degrees, find_nodes_by_property with and without index, find_nodes_in_range, might_match) are compared with the reference model. evaluations = operations followed by a full walk; non-trivial = history using >= 5 operation kinds, distinct by hash of the operation list".into();
-    let n = tier.pick(1500, 40_000);
+    let n = tier.pick(4000, 40_000);
     for case in 0..n {
         let backward = case % 3 != 2;
         let hub = case % 5 == 4;
         let len = if hub { tier.pick(150, 400) } else { 20 + (case as usize * 7) % tier.pick(60, 200) };
         run_history(&mut rep, seed, case, len, backward, hub);
     }
-    for case in 0..tier.pick(1000, 30_000) {
+    for case in 0..tier.pick(3000, 30_000) {
         run_validate(&mut rep, seed, case);
     }
     rep.assumptions = vec![
